@@ -195,6 +195,9 @@ def run(ctx: Ctx):
                 "write_network_info (x1 or x2) + load_network_info(load_devices=True); distinct = distinct case")
     ctx.add_sample(traces[0][0])
     ctx.validate_traces("Trace_NetInfo", traces, invariants=INVS, metas=cases, label="network info", sig=sig)
+    # the wire layouts of the structures this procedure exchanges with the NCP, pinned from the EZSP reference (spec/WireLayout.tla)
+    from . import wirelayout
+    wirelayout.check(ctx, ['EmberNetworkParameters', 'EmberInitialSecurityState', 'EmberCurrentSecurityState', 'EmberKeyStruct', 'SecurityManagerContextV13', 'SecurityManagerNetworkKeyInfo', 'SecurityManagerAPSKeyMetadata', 'EmberChildDataV7'])
     ctx.exhaustive = False
     ctx.assumptions += ["zigpy.util.Requests shim; simulated NCP store (harness/bv/ncp_netinfo.py) answering the restore / read-back commands in every version's result shapes",
                         "from version 5 on only the well-known trust-centre link key round-trips (stated limitation of bellows; the generator uses it there)",
